@@ -100,9 +100,12 @@ func genPath(t *rapid.T) string {
 		segs[i] = segGen.Draw(t, "seg")
 	}
 	p := strings.Join(segs, "/")
+	if rapid.IntRange(0, 4).Draw(t, "trailingslash") == 0 {
+		p += "/" // a trailing slash is part of the path
+	}
 	// keep clear of paths Olla answers itself (model listings) — they are not forwarded
 	for _, own := range []string{"v1/models", "api/tags", "api/v1/models", "api/v0/models", "models"} {
-		if p == own {
+		if strings.TrimSuffix(p, "/") == own {
 			p = "x-" + p
 		}
 	}
@@ -184,7 +187,7 @@ func genReq(t *rapid.T, forceBig bool, forceSmallInspected bool) Req {
 		r.Kind = "json-model"
 		r.CT = "application/json"
 		r.Path = "v1/messages"
-		r.Query = ""
+		r.Query = genQuery(t) // e.g. the SDKs' ?beta=true: passed through verbatim when the request is
 		if r.Size > 3*MiB {
 			r.Size = 3 * MiB
 		}
